@@ -147,6 +147,7 @@ Section Run.
         pose proof (spd_svar cs Hspd i Hi). lra. }
       apply update_eq_textbook_diag.
       - apply Sdiag_state_of.
+      - apply Psym_state_of.
       - exact Hnz.
       - apply minv_ok. apply diag_invertible; [apply Sdiag_state_of|exact Hnz].
     Qed.
